@@ -468,3 +468,68 @@ def all_params(f) -> list[str]:
     if f.args.kwarg:
         out.append(f.args.kwarg.arg)
     return out
+
+
+# ----------------------------------------------------------------------------
+# Fact extraction helpers (statement-local, so that a rule compares facts, not whole-function text)
+# ----------------------------------------------------------------------------
+
+def squash(node_or_text) -> str:
+    """unparse without blanks"""
+    t = node_or_text if isinstance(node_or_text, str) else unparse(node_or_text)
+    return "".join(t.split())
+
+
+def assignments(f, name: str):
+    """all `name = value` / `a.b = value` assignments (dotted target) in f, nested defs excluded"""
+    out = []
+    for n in walk_no_nested(f):
+        if isinstance(n, ast.Assign):
+            for t in n.targets:
+                if (dotted(t) or "") == name:
+                    out.append(n)
+        elif isinstance(n, ast.AnnAssign) and n.value is not None and (dotted(n.target) or "") == name:
+            out.append(n)
+    return sorted(out, key=lambda a: (a.lineno, a.col_offset))
+
+
+def assign_value(f, name: str):
+    """value of the unique assignment to name, else None"""
+    a = assignments(f, name)
+    return a[0].value if len(a) == 1 else None
+
+
+def calls_to(f, *names, nested=True):
+    """Call nodes whose dotted callee is one of names (or ends with '.'+name when name starts with '.')"""
+    out = []
+    it = ast.walk(f) if nested else walk_no_nested(f)
+    for n in it:
+        if isinstance(n, ast.Call):
+            d = dotted(n.func) or ""
+            for nm in names:
+                if d == nm or (nm.startswith(".") and d.endswith(nm)):
+                    out.append(n)
+                    break
+    return sorted(out, key=lambda c: (c.lineno, c.col_offset))
+
+
+def returns_of(f):
+    return [n for n in walk_no_nested(f) if isinstance(n, ast.Return)]
+
+
+def single_return(f):
+    r = returns_of(f)
+    return r[0].value if len(r) == 1 else None
+
+
+def tuple_names(node):
+    """names of a tuple expression/target: (a, b, *c) -> ['a','b','*c'] ; non-names -> unparse"""
+    if not isinstance(node, (ast.Tuple, ast.List)):
+        return None
+    out = []
+    for e in node.elts:
+        if isinstance(e, ast.Starred):
+            out.append("*" + unparse(e.value))
+        else:
+            out.append(unparse(e))
+    return out
